@@ -17,7 +17,58 @@ type absBytes struct {
 	t *smt.Term // magnitude (Int, >= 0)
 }
 
-var byteLenThresholds = []int{1, 2, 8, 16, 31, 32, 33, 48, 64, 65, 128, 256, 257, 512}
+// absCat is a concatenation of byte strings some of which are abstract.
+type absCat struct {
+	parts []value // *absBytes or []value (non-empty)
+}
+
+func isAbsBytes(v value) bool {
+	switch v.(type) {
+	case *absBytes, *absCat:
+		return true
+	}
+	return false
+}
+
+func absParts(v value) []value {
+	switch x := v.(type) {
+	case *absCat:
+		return x.parts
+	case *absBytes:
+		return []value{x}
+	case []value:
+		if len(x) == 0 {
+			return nil
+		}
+		return []value{x}
+	case nil:
+		return nil
+	}
+	panic(fmt.Sprintf("absParts: %T", v))
+}
+
+// catAbs concatenates; adjacent concrete-length parts are merged, empty parts dropped.
+func catAbs(a, b value) value {
+	var parts []value
+	for _, pt := range append(append([]value{}, absParts(a)...), absParts(b)...) {
+		if cur, ok := pt.([]value); ok && len(parts) > 0 {
+			if prev, ok := parts[len(parts)-1].([]value); ok {
+				parts[len(parts)-1] = append(append([]value{}, prev...), cur...)
+				continue
+			}
+		}
+		parts = append(parts, pt)
+	}
+	if len(parts) == 1 {
+		return parts[0]
+	}
+	if len(parts) == 0 {
+		return []value{}
+	}
+	return &absCat{parts: parts}
+}
+
+var byteLenThresholds =[]int{1, 2, 8, 16, 31, 32, 33, 48, 64, 65, 128, 256, 257, 512}
 
 // byteLen returns len(x.Bytes()) as a symbolic int.
 func (p *pathRun) byteLen(t *smt.Term) value {
@@ -29,10 +80,13 @@ func (p *pathRun) byteLen(t *smt.Term) value {
 		// bytelen(x) > k  <=>  x >= 256^k
 		as = append(as, c.Eq(c.Gt(bl, c.IntC64(int64(k))), c.Ge(t, c.IntC(pow2(uint(8*k))))))
 	}
-	p.axiom("bytelen-thresholds", c.And(as...))
-	v := c.Fresh("bytelen", smt.BV(64))
-	p.axiom("bytelen-int", c.And(c.Eq(c.BV2Nat(v), bl), c.BVCmp("bvult", v, c.BVC64(64, 1<<32))))
-	return symInt{types.Int, v}
+	as = append(as, c.Lt(bl, c.IntC64(1<<32)))
+	key := fmt.Sprintf("bytelen:%d", t.ID)
+	if p.counters[key] == 0 {
+		p.counters[key] = 1
+		p.axiom("bytelen-thresholds", c.And(as...))
+	}
+	return symInt{types.Int, bl} // Int-backed length
 }
 
 // absTerm is |t|, simplified when t is known to be non-negative (natural-number
@@ -54,6 +108,26 @@ func (p *pathRun) markNonNeg(t *smt.Term) {
 	p.nonneg[t] = true
 }
 
+// pureBV: the bit-vector is assembled from symbolic bytes only (no integer-to-bit-vector
+// conversion inside): only then is the minimal encoding split by leading zero bytes.
+func pureBV(t *smt.Term, depth int) bool {
+	if depth > 80 {
+		return false
+	}
+	switch t.Op {
+	case "var", "const":
+		return true
+	case "concat", "extract", "zero_extend":
+		for _, a := range t.Args {
+			if !pureBV(a, depth+1) {
+				return false
+			}
+		}
+		return true
+	}
+	return false
+}
+
 // bigBytes models (*big.Int).Bytes.
 func (p *pathRun) bigBytes(fr *frame, x bigval) value {
 	if x.c != nil {
@@ -66,7 +140,7 @@ func (p *pathRun) bigBytes(fr *frame, x bigval) value {
 	}
 	c := p.ctx
 	mag := p.absTerm(x.t)
-	if x.t.Op == "bv2nat" && x.t.Args[0].Sort.W%8 == 0 {
+	if x.t.Op == "bv2nat" && x.t.Args[0].Sort.W%8 == 0 && pureBV(x.t.Args[0], 0) {
 		bv := x.t.Args[0]
 		n := bv.Sort.W / 8
 		bytes := make([]value, n)
@@ -116,7 +190,7 @@ func (p *pathRun) fromBytes(fr *frame, v value) bigval {
 				acc = c.Concat(acc, t)
 			}
 		}
-		return p.mkBig(c.BV2Nat(acc))
+		return p.mkBig(p.unmod(c.BV2Nat(acc)))
 	}
 	panic(fmt.Sprintf("fromBytes: %T", v))
 }
